@@ -103,6 +103,12 @@ pub struct RunResult {
 /// Runs `bodies` as managed threads under `schedule` (ids that are not runnable are skipped; when the
 /// schedule is exhausted the lowest runnable id is taken).
 pub fn run(bodies: Vec<Box<dyn FnOnce() + Send + 'static>>, schedule: &[usize]) -> RunResult {
+    run_deadline(bodies, schedule, 20)
+}
+
+/// `run` with the time after which a run that makes no scheduling progress is given up (`timed_out`): a managed thread
+/// that blocks OUTSIDE a yield point (e.g. on a lock another parked thread holds) never parks, and the controller waits.
+pub fn run_deadline(bodies: Vec<Box<dyn FnOnce() + Send + 'static>>, schedule: &[usize], deadline_s: u64) -> RunResult {
     let n = bodies.len();
     let s = Arc::new(Sched {
         st: Mutex::new(State { status: vec![Status::Running; n], spin_blocked: vec![false; n], last_point: vec![""; n], turn: None, free_run: false }),
@@ -125,7 +131,7 @@ pub fn run(bodies: Vec<Box<dyn FnOnce() + Send + 'static>>, schedule: &[usize]) 
     }
     let mut res = RunResult { trace: vec![], choices: vec![], deadlock: false, timed_out: false, panicked: vec![] };
     let mut pos = 0;
-    let deadline = Instant::now() + Duration::from_secs(20);
+    let deadline = Instant::now() + Duration::from_secs(deadline_s);
     loop {
         let mut st = s.st.lock().unwrap();
         // wait until nobody is running
